@@ -225,7 +225,19 @@ class Reader(object):
             if not m:
                 raise RefReject('bad-xstr', 0, repr(body[:30]))
             t['xstr'] += 1
-            return ('xstr', m.group(1), m.group(2))
+            payload = m.group(2)
+            if m.group(1) == 'hex':
+                if len(payload) % 2 or re.search(r'[^0-9a-fA-F]', payload):
+                    raise RefReject('xstr-payload-malformed', 0, payload[:20])
+                payload = payload.lower()
+            elif m.group(1) == 'b64':
+                import base64
+                import binascii
+                try:
+                    payload = base64.b64encode(base64.b64decode(payload.encode('ascii'), validate=True)).decode('ascii')
+                except (binascii.Error, UnicodeEncodeError, ValueError):
+                    raise RefReject('xstr-payload-malformed', 0, payload[:20])
+            return ('xstr', m.group(1), payload)
         if self.strict:
             raise RefReject('unknown-prefix', 0, repr(v[:20]))
         t['bare-str'] += 1
@@ -351,7 +363,11 @@ class Writer(object):
         if k == 'ref':
             return 'r:' + n[1] + ('' if n[2] is None else ' ' + n[2])
         if k == 'xstr':
-            return 'x:%s:%s' % (n[1], n[2])
+            payload = n[2]
+            if n[1] == 'hex' and re.search('[a-f]', payload):
+                if self.pick('hex-case', ['lower', 'upper']) == 'upper':
+                    payload = payload.upper()
+            return 'x:%s:%s' % (n[1], payload)
         if k == 'date':
             return 'd:%04d-%02d-%02d' % n[1:]
         if k == 'time':
